@@ -134,9 +134,12 @@ def propReduce (m : Method) (ms : List Message) (impl : List String) : String :=
         if th == 0 then "fail:accepted-zero-interval" else
         if !keysValidB tstamp ms then "n/a" else
         if reducedB tstamp wrapSub th none ms out then "ok" else "fail:reduced-time"
-      | .rdp _ _ =>
+      | .rdp _ simplified =>
         if !isSublistB out ms then "fail:not-a-sublist" else
-        if out.filter (fun m => !isRecord m) != ms.filter (fun m => !isRecord m) then "fail:non-record-dropped" else "ok"
+        if out.filter (fun m => !isRecord m) != ms.filter (fun m => !isRecord m) then "fail:non-record-dropped" else
+        -- the simplifier's contract: a sublist of the points handed over
+        if !isSublistNat simplified (pointIndexes ms) then "ok" else
+        if out != rdpExpected simplified ms then "fail:rdp-kept-differs-from-simplifier" else "ok"
       | .none => "fail:accepted-without-method"
   | _ => "n/a"
 
@@ -183,7 +186,17 @@ def hCombine : Handler := fun r =>
       | .panic => "panic"
       | .unmodelled => "unmodelled"
     | .kf => "-"
-    | _ => "n/a"
+    | .prop =>
+      match implToks r with
+      | "ok" :: _ :: _ :: parts =>
+        match (parts.filter (·.startsWith "M")).mapM parseMessage, expectedBody fits with
+        | some body, some exp =>
+          if body.map blankAcc != exp.map blankAcc then "fail:records-order-or-content" else
+          if body != exp then "fail:accumulated-not-continued" else "ok"
+        | none, _ => "fail:unparsable"
+        | _, none => "n/a"
+      | _ => "n/a"
+    | .spec => "n/a"
   | none => if r.mode == .model then "bad-op" else if r.mode == .kf then "-" else "n/a"
 
 end Drv.Act
